@@ -31,7 +31,8 @@ ASSUMPTIONS = [
     "FLAT extents use start offset 0",
 ]
 
-NAME_ALPHABET = "abcXYZ019 -_.()'`:#=;,+&ëä中\U0001F98A\""
+# incl. the characters str.splitlines() treats as line boundaries although a descriptor line only ends at "\n"
+NAME_ALPHABET = "abcXYZ019 -_.()'`:#=;,+&ëä中\U0001F98A\"\u2028\u2029\x85\x0b\x0c\x1c\x1e"
 TYPES = {"flat": ["FLAT", "VMFS"], "kdmv": ["SPARSE"], "cowd": ["VMFSSPARSE"], "sesparse": ["SESPARSE"]}
 
 
